@@ -43,5 +43,6 @@ extern char vrt_xerbla_name[16];
 void  vrt_xerbla_reset(void);
 
 int   vrt_thread_count(void);      /* entries in /proc/self/task */
+int   vrt_thread_count_until(int expect);   /* ... re-read until it has come down to expect (0.5 s at most) */
 int   vrt_fd_count(void);
 #endif
